@@ -343,6 +343,40 @@ theorem peel_deliver {sc : Node → List Node} {ns : List Node} : ∀ (k : Nat) 
       · simp only [he]
         exact collect_total (fun m hm => ih m (h' m hm))
 
+/-- `deliver` also terminates for any behaviour that uses only some of the graph's edges -/
+theorem peel_deliver_sub {sc sc' : Node → List Node} {ns : List Node} (hsub : ∀ n m, m ∈ sc' n → m ∈ sc n) :
+    ∀ (k : Nat) (n : Node), n ∈ peel sc ns k → ∃ ws, deliver sc' k n = some ws := by
+  intro k
+  induction k with
+  | zero => intro n h; simp [peel] at h
+  | succ k ih =>
+    intro n h
+    rcases mem_peel_succ.mp h with h' | ⟨_, h'⟩
+    · obtain ⟨ws, hws⟩ := ih n h'
+      exact ⟨ws, deliver_mono_succ sc' k n ws hws⟩
+    · simp only [deliver]
+      by_cases he : n.isExp = true
+      · exact ⟨[[]], by simp [he]⟩
+      · simp only [he]
+        exact collect_total (fun m hm => ih m (h' m (hsub n m hm)))
+
+/-- every step of the walk `n, w` passes the filter -/
+def PairsOk (f : Node × Node → Bool) : Node → List Node → Prop
+  | _, [] => True
+  | n, m :: w => f (n, m) = true ∧ PairsOk f m w
+
+theorem isRouteWalk_filter {E : List (Node × Node)} {f : Node × Node → Bool} : ∀ (w : List Node) (n : Node),
+    IsRouteWalk (E.filter f) n w ↔ IsRouteWalk E n w ∧ PairsOk f n w := by
+  intro w
+  induction w with
+  | nil => intro n; simp [IsRouteWalk, PairsOk]
+  | cons m w ih =>
+    intro n
+    simp only [IsRouteWalk, PairsOk, List.mem_filter, ih m]
+    constructor
+    · rintro ⟨h1, ⟨h2, h3⟩, h4, h5⟩; exact ⟨⟨h1, h2, h4⟩, h3, h5⟩
+    · rintro ⟨⟨h1, h2, h4⟩, h3, h5⟩; exact ⟨h1, ⟨h2, h3⟩, h4, h5⟩
+
 theorem sortable_mem {sc : Node → List Node} {ns : List Node} (h : sortable sc ns = true) {n : Node} (hn : n ∈ ns) :
     n ∈ peel sc ns ns.length := by
   simp only [sortable, List.all_eq_true, decide_eq_true_eq] at h
